@@ -255,7 +255,7 @@ for _p in ("C07", "C08", "C09"):
     PROPS[_p]["level_note"] = "Proof for the five struct programs of catalogue/structs.json (all payloads, all answers); the program quantifier ('every derive input') is sampled; enum / user-function features and the remaining catalogue types are bounded (Kani + exhaustive native execution). " + PROPS[_p]["level_note"]
 for _p in ("C01", "C02", "C03", "C04", "C12"):
     PROPS[_p]["units"] = PROPS[_p]["units"] + [_DERIVE_VERUS]
-    PROPS[_p]["text"] += " Derived structs: the real expansion for the catalogue structs (nine at this commit, three of them with user-function attributes) is proved in Verus unit `derive` against the same postconditions (unbounded payloads)."
+    PROPS[_p]["text"] += " Derived structs: the real expansion for the structs of catalogue/structs.json (three of them with user-function attributes) is proved in Verus unit `derive` against the same postconditions (unbounded payloads)."
 PROPS["C10"]["units"] = [_DERIVE_VERUS] + PROPS["C10"]["units"]
 PROPS["C10"]["text"] += " UNBOUNDED part (Verus unit `derive`): the real expansion for two unit-only enums (rename_all = lowercase with a renamed variant; rename_all = camelCase on PascalCase identifiers) is proved for every payload: the variant chosen is exactly the one whose effective name equals the string, any other string yields one UnknownValue report with all effective names in declaration order at the enum's location, any non-string one kind error listing String. Internally tagged enum (tag `type`, container rename_all = camelCase, a renamed variant, a variant-level rename_all = lowercase, a defaulted field, two variants sharing a field name with different types): the real expansion is proved for every payload and every position of the tag: an absent tag is MissingField(tag) at the enum, a non-string tag a kind error at the tag's own location, a string naming no variant an error at the enum, otherwise exactly the variant whose effective name equals the string is built from the remaining entries by that variant's field rules alone (relative to the value-source contract of Map::remove: it takes out the first entry under the key and only it)."
 PROPS["C10"]["level"] = "proof"
